@@ -452,7 +452,7 @@ pub fn t_pipe(rng: &mut Rng, profile: &'static str, run_seed: u64, miri: bool, t
     let preloaded = rng.below(n_items as u64 + 1).min(if rng.chance(1, 2) { 0 } else { 8 }) as usize;
     let close = !drop_output && rng.chance(4, 5);
     let preclosed = close && preloaded == n_items && rng.chance(1, 2);
-    prog.pipes.push(PipeDef { obj: 0, through, depth, items: items.clone(), preloaded, preclosed, mpsc: !drop_output && rng.chance(1, 4) });
+    prog.pipes.push(PipeDef { obj: 0, through, depth, items: items.clone(), preloaded, preclosed, mpsc: !drop_output && rng.chance(1, 4), register_first: rng.chance(1, 3) });
     // creator / consumer thread
     let mut t0 = vec![TAct::PipeCreate(0)];
     if through {
